@@ -107,6 +107,8 @@ def gen(rng, tier):
         for dmax, bos, obj in ((4, 4, 4), (4, 8, 8), (2, 8, 8), (9, 8, 9), (5, 4, 5), (LIMS + 1, 8, 8), (LIMS + 4, LIMS + 8, LIMS + 8)):
             ops.append(mk_sep(fn, dmax, [X] * min(dmax, obj), S, 2, bos=bos, objsize=obj, tag="bos"))
             ops.append(mk_sep(fn, dmax, [A, 0] + [X] * 8, S, 2, bos=bos, objsize=obj, tag="bos-term"))
+        # slen > dmax with dmax above the limit inside a known object that large: the clearing exit measures dest with strnlen_s
+        ops.append(mk_sep(fn, LIMS + 4, [A, 0] + [X] * 8, S, LIMS + 5, bos=LIMS + 8, objsize=LIMS + 8, tag="bos-big+slen"))
         ops.append(mk_sep(fn, LIMS + 1, [X] * 8, S, 2, objsize=8, tag="limit+1"))
         ops.append(mk_sep(fn, LIMS, [X] * LIMS, [A] * 8 + [0], 4, objsize=LIMS, tag="limit"))
         for slen in (5, LIMS, LIMS + 1, 1 << 40):
